@@ -141,6 +141,15 @@ def kind_term(j):
         for c in j["Case"]:
             out += [term(c["condition"]), term(c["value"])]
         return ("EGroup", "GCase", out)
+    if "Func" in j:
+        f = j["Func"]
+        if f.get("return_ty") is not None or any(p.get("ty") is not None for p in (f.get("params") or []) + (f.get("named_params") or [])):
+            raise Unsupported("lambda with type annotations")
+        if f.get("generic_type_params"):
+            raise Unsupported("lambda with generic parameters")
+        ps = [codes(p["name"]) for p in f.get("params") or []]
+        ds = [("ENamed", codes(p["name"]), term(p["default_value"])) for p in f.get("named_params") or []]
+        return ("EFunc", ps, ds, term(f["body"]))
     raise Unsupported("expr kind %s" % sorted(j.keys()))
 
 
@@ -234,6 +243,7 @@ def model_tokens(toks, symidx):
     """canonical real tokens of one expression -> Coq list of model tokens, or Unsupported"""
     out = []
     stack = []
+    header = None      # bracket depth at which a lambda header (`func` ... `->`) is open
     i = 0
     n = len(toks)
     SYM = {"Eq": "==", "Ne": "!=", "Gte": ">=", "Lte": "<=", "RegexSearch": "~=", "And": "&&", "Or": "||", "Coalesce": "??", "DivInt": "//", "Pow": "**"}
@@ -268,7 +278,19 @@ def model_tokens(toks, symidx):
                 stack.append("GCase")
                 i += 2
                 continue
+            if t["Keyword"] == "func" and header is None:
+                out.append("TFunc")
+                header = len(stack)
+                i += 1
+                continue
             raise Unsupported("keyword")
+        elif t == "ArrowThin":
+            if header is None or header != len(stack):
+                raise Unsupported("lambda without the keyword, or nested headers")
+            if nxt == {"Control": "<"}:
+                raise Unsupported("lambda return type")
+            out.append("TThin")
+            header = None
         elif isinstance(t, dict) and "Control" in t:
             c = t["Control"]
             if c in "({[":
@@ -283,6 +305,8 @@ def model_tokens(toks, symidx):
                 out.append("TComma")
             elif c == "|":
                 out.append("TPipe")
+            elif c in "<>" and header is not None and header == len(stack):
+                raise Unsupported("lambda parameter type (or a comparison in a default value)")
             elif c in symidx:
                 out.append("(TS %d%%nat false)" % symidx[c])
             else:
@@ -326,13 +350,12 @@ def run(ck, info, pr):
     for key, e in G.triples():
         cases.append(("corr-fmt-triples", G.src(e)))
     for a in G.ADJACENCY:
-        if "func" not in a:
-            cases.append(("corr-fmt-adjacency", a))
+        cases.append(("corr-fmt-adjacency", a))
     for key, e in G.quads(rng, ck.n(200, 4000)):
         cases.append(("corr-fmt-quads", G.src(e)))
     for _ in range(ck.n(300, 6000)):
         d = rng.choice([2, 3, 3, 4])
-        cases.append(("corr-fmt-random", G.src(G.gen_expr(rng, d, {"clean": rng.random() < 0.7, "nofunc_top": True}))))
+        cases.append(("corr-fmt-random", G.src(G.gen_expr(rng, d, {"clean": rng.random() < 0.7}))))
     for _ in range(ck.n(100, 2000)):
         cases.append(("corr-fmt-random", G.src(G.gen_expr(rng, 3, {"clean": False, "lits": False, "idq": 0.0, "idk": 0.0}))))
     answers = harness("c14", [{"src": "let v = " + s + "\n", "targets": [], "compile": False} for _, s in cases])
@@ -414,13 +437,12 @@ def run(ck, info, pr):
     for key, e in G.triples():
         psrc.append(("corr-parser-triples", G.src(e)))
     for a in G.ADJACENCY:
-        if "func" not in a:
-            psrc.append(("corr-parser-adjacency", a))     # incl. aliases in parentheses at every operand position
+        psrc.append(("corr-parser-adjacency", a))     # incl. aliases in parentheses at every operand position, lambdas
     for (stream, s, t, real, v), mt in zip(todo, texts):
         if stream != "corr-fmt-triples" and "\n" not in real and len(psrc) < ck.n(1900, 9000):
             psrc.append(("corr-parser-fmt-output", real))
     for _ in range(ck.n(200, 3000)):
-        e = G.gen_expr(rng, 3, {"clean": True, "lits": True, "rich": True, "nofunc_top": True})
+        e = G.gen_expr(rng, 3, {"clean": True, "lits": True, "rich": True})
         psrc.append(("corr-parser-random", drop_parens(rng, G.src(e))))
     pa = harness("c14", [{"src": "let v = " + s + "\n", "targets": [], "compile": False} for _, s in psrc])
     pl_reqs = harness("c14lex", [{"src": s} for _, s in psrc])
